@@ -275,7 +275,7 @@ Proof. exact dx_order_observable. Qed.
    of a call or an element of a set (such values mix graph nodes of several blocks; the renumbering is monotone only inside one block, so sets would have to be re-sorted
    and functions be equivariant under arbitrary injective renamings), in eager positions (conditions, `for`/`scan` subjects: the cell would be forced before all definitions
    are collected — an error that DOES depend on the order), DEFINITIONS whose scope expression is not a capture.
-   PROOF ROUTE (Proofs/ScPerm*.v, 13 files): the by-index acyclicity of the thunk store (false as soon as a reader precedes its definer) is replaced by a reference evaluator
+   PROOF ROUTE (Proofs/ScPerm*.v, 12 files): the by-index acyclicity of the thunk store (false as soon as a reader precedes its definer) is replaced by a reference evaluator
    `cev` over the static environment of the state at the beginning of the evaluation phase (bodies of the thunks, forced maps of the cells): plain unfolding, no state; a finite
    unfolding is the well-founded dependency order.  SOUNDNESS: a successful lazy evaluation phase computed what `cev` computes (no acyclicity assumed: it follows from success).
    ADEQUACY: where `cev` has a value the lazy evaluator converges to it (strong induction on the fuel of `cev`; a thunk is forced at the minimal fuel of its body, so the thunks
